@@ -198,6 +198,21 @@ def rule_b(ctx, cr):
                   "every path from the save to the return stores cont_pc = pc",
                   "%s saves the running state into cont but can return without saving pc: CONT "
                   "would resume at a stale address" % name)
+    # what is saved is a state that can be continued: never the pending-interrupt marker itself
+    from lib import typestate
+    it = cr.need_fn("mach::runtime::Runtime::interrupt")
+    # inductive form: assume cont != Interrupt on entry, require it on exit
+    allv = {v["name"] for v in cr.adts["mach::runtime::State"]["variants"]}
+    vm = typestate.VariantMay(it, "mach::runtime::State", "(*_1).state", ["(*_1).cont"],
+                              assume={"(*_1).cont": allv - {"Interrupt"}})
+    saved = set()
+    for b in it.return_blocks():
+        saved |= set(vm.at(b, "(*_1).cont") or ())
+    ctx.check("Interrupt" not in saved, "C13.b", "interrupt/never-saves-interrupt", it.span,
+              "after interrupt() the saved continuation is one of %s" % sorted(saved),
+              "interrupt() can save State::Interrupt as the continuation (a second interrupt() "
+              "before execute() has reported the first): the running state is overwritten, CONT "
+              "prints BREAK again and the program cannot be continued")
     c = cr.need_fn("mach::runtime::Runtime::cont")
     ctx.touch(c)
     readers = set()
